@@ -376,6 +376,20 @@ def modes_and_shell(res):
             res.failures.append(('mode:' + mode, {'mode': mode},
                                  'exception %r' % e))
             continue
+    # a mode that selects none or several of the three: the shell's own
+    # message and exit, no other exception
+    for mode in ('x', '', 'allx', 'q'):
+        res.count('modes', ('bad-mode', mode))
+        try:
+            checks.create_equation_punct_messages(
+                plain + ' Word', CL(equ=mode), 'U-U-U', 'B-B-B', 'U-U-U|B-B-B')
+            res.failures.append(('mode:' + mode, {'mode': mode},
+                                 'mode %r is accepted (it selects none or several modes)' % mode))
+        except SystemExit:
+            pass
+        except BaseException as e:
+            res.failures.append(('mode:' + mode, {'mode': mode},
+                                 'mode %r ends in %r instead of the message of the shell' % (mode, e)))
     # table obligation used by the theorems: no placeholder is a prefix of
     # another one (alternation order then cannot matter)
     ph = placeholders_from_repo()
